@@ -313,9 +313,7 @@ def _contains(spec, pred):
 def execute(prop, scen):
     res = RunResult()
     peers.reset()
-    from sktime.forecasting.base import ForecastingHorizon
-    ForecastingHorizon.to_relative.cache_clear()
-    ForecastingHorizon.to_absolute.cache_clear()
+    C.reset_caches()
     np.random.seed(scen["series"]["seed"] % (2 ** 31))
     s = scen["series"]
     y = C.make_series(s["seed"], s["n"], s["origin"], s["index"], sp=s["sp"])
